@@ -125,7 +125,7 @@ def verus_failures_on(repo_dir, prop, tier):
                 if prop in props or e['fn'] in sup:
                     failing.append(e['obligation'])
             for fn, fi in info.items():
-                if fi.get('degraded') and (prop in fi['props'] or prop == 'C01' or fn in sup):
+                if fi.get('degraded') and (prop in fi['props'] or prop in fi.get('label_props', []) or prop == 'C01' or fn in sup):
                     undec.append(fn)
         return sorted(set(failing)), sorted(set(undec))
     finally:
@@ -222,8 +222,11 @@ def check_property(prop, tier, seed):
         for fn, fi in info.items():
             if fi['extern']:
                 continue
-            if fi.get('degraded') and (prop in fi['props'] or prop == 'C01' or fn in sup or any(o['fn'] == fn for o in mine.values())):
+            if fi.get('degraded') and (prop in fi['props'] or prop in fi.get('label_props', []) or prop == 'C01' or fn in sup or any(o['fn'] == fn for o in mine.values())):
                 undecided.append('%s: %s' % (fn, fi['degraded']))
+                if not any(o['fn'] == fn for o in mine.values()):
+                    # its tagged obligations live in woven blocks that a degraded function does not get: count them as one
+                    mine['%s/contract' % fn] = dict(fn=fn, sec='sig', label='contract', clauses=['every obligation of %s tagged with this property (function not verified on this tree)' % fn])
             if prop in fi['props'] or prop == 'C01' or fn in sup:
                 mine['%s/safety' % fn] = dict(fn=fn, sec='body', label='safety', clauses=['no overflow/underflow, no reachable panic!/unwrap/expect failure, every callee precondition holds, indices in bounds'])
         # errors that map to an obligation nobody declared (unlabelled ghost text): attribute to the function
